@@ -187,10 +187,16 @@ def d1_inventory(ctx, idx):
                         fld = 'cls._negative_powers'
                         manager_writers.add(short_q)
                     found.setdefault((fld, short_q), []).append(n)
+        try:
+            inference_q = _inference_function(idx).qualname[len('mitxgraders.'):]
+        except AnalysisError:
+            inference_q = None
         for (fld, q), nodes in sorted(found.items()):
             where = '%s:%d' % (idx.funcs['mitxgraders.' + q].module.relpath, nodes[0].lineno)
             if fld in INVENTORY and q in INVENTORY[fld]:
                 r.ok('%s <- %s' % (fld, q), INVENTORY[fld][q], where)
+            elif inference_q is not None and q == inference_q and fld in ("self.config['answers']", 'self.inferring_answers'):
+                r.ok('%s <- %s' % (fld, q), 'the method the inference from expect was moved to (its obligations: D2, D4)', where)
             elif fld == 'cls._negative_powers' and q in manager_writers:
                 r.ok('%s <- %s' % (fld, q), 'the context-manager object returned by enable_negative_powers (D8)', where)
             elif fld in reviewed_fields:
@@ -253,11 +259,79 @@ def _persistent_stores(fi):
     return out
 
 
+_EXPECT_NAME = ['expect']
+
+
+def _inference_function(idx):
+    """The method of ItemGrader that commits the answers inferred from expect: `__call__` as reviewed, or the one method the
+    store was moved to (a hook called from __call__)."""
+    ci = idx.cls(IG)
+    cands = [m for m in ci.methods.values() if m.name != '__init__'
+             and any(f == "self.config['answers']" for _, f in _persistent_stores(m))]
+    if len(cands) == 1:
+        return cands[0]
+    if not cands:
+        raise AnalysisError("no method of ItemGrader stores to self.config['answers']")
+    raise AnalysisError("several methods of ItemGrader store to self.config['answers']: %s" % sorted(m.name for m in cands))
+
+
+def _d2_hook(r, idx, fi):
+    """The inference was moved out of __call__ into the method fi: it must still run on every call, receive the call's expect,
+    and run before the submission is validated as text (the reviewed order: a call that supplies a valid expect records it
+    even when its input is then refused)."""
+    label = '%s [hook]' % fi.qualname[len('mitxgraders.'):]
+    sites = []
+    for q in (AG + '.__call__', IG + '.__call__'):
+        if not idx.has_func(q):
+            continue
+        caller = idx.func(q)
+        for c in lib.calls_named(caller.node, fi.name):
+            if isinstance(c.func, ast.Attribute) and isinstance(c.func.value, ast.Name) and c.func.value.id == caller.params[0]:
+                sites.append((caller, c))
+    if len(sites) != 1:
+        r.undecided(label, '%d call site(s) of %s in the __call__ methods: how the inference is reached is not recognised' % (len(sites), fi.name), fi.loc)
+        return
+    caller, c = sites[0]
+    cfg = cfg_of(caller.node)
+    hn = lib.cfg_nodes_for(cfg, c)
+    # bound parameter for expect
+    params = fi.params[1:]
+    bound = dict(zip(params, c.args))
+    for kw in c.keywords:
+        if kw.arg:
+            bound[kw.arg] = kw.value
+    names = [p_ for p_, a in bound.items() if isinstance(a, ast.Name) and a.id == 'expect']
+    if len(names) != 1:
+        r.undecided(label, 'the expect argument of the call is not handed to %s by name' % fi.name, lib.loc(caller, c))
+        return
+    _EXPECT_NAME[0] = names[0]
+    if not cfg.must_pass([cfg.entry], hn, exits='return', after=False):
+        r.undecided(label, '%s is not called on every returning path of %s' % (fi.name, caller.qualname), lib.loc(caller, c))
+        return
+    ens = lib.calls_named(caller.node, 'ensure_text_inputs')
+    if not ens:
+        r.undecided(label, 'no ensure_text_inputs call next to the hook: order not decided', lib.loc(caller, c))
+        return
+    en = [n for e in ens for n in lib.cfg_nodes_for(cfg, e)]
+    if cfg.dominates(hn, en):
+        r.ok(label, 'called on every path with the call\'s expect, before the submission is validated as text', lib.loc(caller, c))
+    elif cfg.dominates(en, hn):
+        r.violation(label, 'the submission is validated as text before %s records the expect value: a call that supplies a new valid '
+                    'expect together with a non-text input now raises without recording it, so a later call without expect is graded '
+                    'against the older expect (or finds no answers at all) -- the reviewed order records first' % fi.name,
+                    lib.loc(caller, c), expected='%s before ensure_text_inputs' % fi.name, found='after')
+    else:
+        r.undecided(label, 'order of the hook and ensure_text_inputs differs between paths', lib.loc(caller, c))
+
+
 def d2_validate_then_commit(ctx, idx):
     r = ctx.rule('D2.ORDER', "ItemGrader.__call__ validates the inferred answers completely before committing them", floor=5)
     with r:
-        fi = idx.func(IG + '.__call__')
+        _EXPECT_NAME[0] = 'expect'
+        fi = _inference_function(idx)
         cfg = cfg_of(fi.node)
+        if fi.name != '__call__':
+            _d2_hook(r, idx, fi)
         stores = _persistent_stores(fi)
         if not any(f == "self.config['answers']" for _, f in stores):
             raise AnalysisError("no store to self.config['answers'] in ItemGrader.__call__")
@@ -302,7 +376,7 @@ def d2_validate_then_commit(ctx, idx):
                     pass
             if val is None:
                 val = lib.inline_locals(st.value, fi.node)
-            res = nf.classify('self.post_schema_ans_val(self.schema_answers(self.infer_from_expect(expect)))', val)
+            res = nf.classify('self.post_schema_ans_val(self.schema_answers(self.infer_from_expect(%s)))' % _EXPECT_NAME[0], val)
             if res == nf.MATCH:
                 r.ok("ItemGrader.__call__: value stored in config['answers']", 'post_schema_ans_val(schema_answers(infer_from_expect(expect)))', lib.loc(fi, st))
             else:
@@ -381,7 +455,7 @@ def d3_log_flag(ctx, idx):
 # ----------------------------------------------------------------------------- D4
 def _d4_atom(e):
     """Atom of the inference condition a test expression stands for: (name, polarity) or None."""
-    if isinstance(e, ast.Compare) and len(e.ops) == 1 and isinstance(e.left, ast.Name) and e.left.id == 'expect' \
+    if isinstance(e, ast.Compare) and len(e.ops) == 1 and isinstance(e.left, ast.Name) and e.left.id == _EXPECT_NAME[0] \
             and isinstance(e.comparators[0], ast.Constant) and e.comparators[0].value is None and isinstance(e.ops[0], (ast.Is, ast.IsNot)):
         return 'given', isinstance(e.ops[0], ast.IsNot)
     if isinstance(e, ast.Attribute) and e.attr == 'inferring_answers':
@@ -417,7 +491,7 @@ def _d4_eval(e, val, env=()):
 def d4_inference_condition(ctx, idx):
     r = ctx.rule('D4.NF', 'answers are inferred from expect iff expect is given and the grader has no configured answers', floor=1)
     with r:
-        fi = idx.func(IG + '.__call__')
+        fi = _inference_function(idx)
         st = [s for s, f in _persistent_stores(fi) if f == "self.config['answers']"]
         if not st:
             raise AnalysisError('no store')
